@@ -93,12 +93,13 @@ func valueEnums() []Enum {
 	ones64 := strings.Repeat("1", 64)
 	return []Enum{
 		e("V_DEC", false, EnumEntry{"V_DEC_0", "0", 0}, EnumEntry{"V_DEC_1", "1", 1}, EnumEntry{"V_DEC_255", "255", 255}, EnumEntry{"V_DEC_65535", "65535", 65535},
+			EnumEntry{"V_DEC_LZ10", "010", 10}, EnumEntry{"V_DEC_LZ8", "08", 8}, EnumEntry{"V_DEC_LZ17", "0017", 17}, EnumEntry{"V_DEC_LZ9", "09", 9},
 			EnumEntry{"V_DEC_U32", "4294967295", 4294967295}, EnumEntry{"V_DEC_I63", "9223372036854775807", 1<<63 - 1}, EnumEntry{"V_DEC_U64", "18446744073709551615", ^uint64(0)}),
 		e("V_HEX", false, EnumEntry{"V_HEX_0", "0x0", 0}, EnumEntry{"V_HEX_10", "0x10", 16}, EnumEntry{"V_HEX_FF", "0xFF", 255}, EnumEntry{"V_HEX_LOWER", "0xab", 0xab},
-			EnumEntry{"V_HEX_U64", "0xFFFFFFFFFFFFFFFF", ^uint64(0)}, EnumEntry{"V_HEX_8000", "0x8000", 0x8000}),
+			EnumEntry{"V_HEX_U64", "0xFFFFFFFFFFFFFFFF", ^uint64(0)}, EnumEntry{"V_HEX_8000", "0x8000", 0x8000}, EnumEntry{"V_HEX_UPPER", "0xABCDEF", 0xABCDEF}, EnumEntry{"V_HEX_LZ", "0x0020", 32}, EnumEntry{"V_HEX_2P63", "0x8000000000000000", 1 << 63}),
 		e("V_BIN", false, EnumEntry{"V_BIN_1", "0b1", 1}, EnumEntry{"V_BIN_1000", "0b1000", 8}, EnumEntry{"V_BIN_101", "0b00000101", 5}, EnumEntry{"V_BIN_ALL", "0b" + ones64, ^uint64(0)}),
 		e("V_POW", false, EnumEntry{"V_POW_2_0", "2**0", 1}, EnumEntry{"V_POW_2_10", "2**10", 1024}, EnumEntry{"V_POW_2_63", "2**63", 1 << 63}, EnumEntry{"V_POW_10_3", "10**3", 1000},
-			EnumEntry{"V_POW_3_2", "3**2", 9}, EnumEntry{"V_POW_2_1", "2**1", 2}, EnumEntry{"V_POW_7_1", "7**1", 7}, EnumEntry{"V_POW_5_4", "5**4", 625}),
+			EnumEntry{"V_POW_3_2", "3**2", 9}, EnumEntry{"V_POW_2_1", "2**1", 2}, EnumEntry{"V_POW_7_1", "7**1", 7}, EnumEntry{"V_POW_5_4", "5**4", 625}, EnumEntry{"V_POW_2_32", "2**32", 1 << 32}, EnumEntry{"V_POW_2_40", "2**40", 1 << 40}, EnumEntry{"V_POW_2_31", "2**31", 1 << 31}),
 		e("V_FLAGS_DENSE", true, EnumEntry{"V_FD_A", "1", 1}, EnumEntry{"V_FD_B", "2", 2}, EnumEntry{"V_FD_C", "4", 4}),
 		e("V_FLAGS_SPARSE", true, EnumEntry{"V_FS_A", "1", 1}, EnumEntry{"V_FS_B", "0x80", 128}, EnumEntry{"V_FS_C", "2**40", 1 << 40}, EnumEntry{"V_FS_D", "0b1" + strings.Repeat("0", 63), 1 << 63}),
 		e("V_FLAGS_MIXED", true, EnumEntry{"V_FM_A", "0b10", 2}, EnumEntry{"V_FM_B", "2**5", 32}, EnumEntry{"V_FM_C", "0x100", 256}),
